@@ -38,6 +38,25 @@ def visWrapCfg : WrapCfg :=
     pointFullSphere := true,
     passVisibleDistance := true,
     opOccludersFiltered := true,
-    reqOccludersFiltered := true }
+    reqOccludersFiltered := true,
+    pointRegionDiamFactor := 2,
+    viewRegionDiamFactor := 2,
+    viewRegionWithinSphere := true }
+
+/-- choices of the 2D compatibility mode (`Point2D.canSee`, the 2D `visibleRegion`s, `SectorRegion.containsPoint`,
+    `geometry.pointIsInCone`, `Vector.rotatedBy`) -/
+def visCfg2D : Cfg2D :=
+  { fastPathWithoutOccluders := true,
+    pointViaRegion := true,
+    discArgs := true,
+    sectorArgs := true,
+    objCamOffsetRotated := true,
+    rotatedByCCW := true,
+    planarOnly := true,
+    distWithin := true,
+    coneNum := 1,
+    coneDen := 0,
+    coneQuarter := (-1),
+    coneHalfAngle := true }
 
 end Scenic.Gen
